@@ -137,6 +137,7 @@ def extract_distance_kernel(name, body, params, lang, settings_names=('settings'
     F = Facts(name=name, lang=lang, problems=[])
     from . import symexec as _sx
     _sx.ARRAYS.clear()
+    _sx.STRUCTS.clear()
     found = find_dp_loops(body)
     if found is None:
         raise AnalysisError('unrecognised shape: no DP loop nest in %s' % name)
